@@ -125,7 +125,11 @@ def run(ctx):
         # --------------------------------------------------------- required
         classes = {}
         n_paths = 0
-        for kind, stmts in body_paths(p2j.node.body):
+        from ..core import RefGraph
+        from .c11 import helper_inliner
+
+        inl = helper_inliner(index, RefGraph(index), p2j)
+        for kind, stmts in body_paths(p2j.node.body, inline=inl):
             n_paths += 1
             appends = sum(
                 1
@@ -137,8 +141,9 @@ def run(ctx):
             )
             facts = [(norm(s.value), s.truth) for s in stmts if isinstance(s, PathFact)]
             optional = any("startswith('Optional[')" in t and tr for t, tr in facts)
-            typed_tests = [(t, tr) for t, tr in facts if "'typ'" in t and ("==" in t or " in " in t or "is not" in t)]
-            typed = any(tr for _t, tr in typed_tests)
+            typed_tests = [(t, tr) for t, tr in facts if "'typ'" in t and ("==" in t or " in " in t or " is " in t)]
+            # `x.get('typ', S) is S` false  <=>  `... is not S` true  <=>  a type is present
+            typed = any((not tr) if (" is " in t and " is not " not in t) else tr for t, tr in typed_tests)
             cls = "optional" if optional else ("typed-not-optional" if typed else "untyped")
             classes.setdefault(cls, set()).add(appends)
         ctx.count("paths_through_param2json_schema_property", n_paths)
@@ -191,8 +196,30 @@ def run(ctx):
         nonlocal ok
         # ------------------------------------------------------------- meta
         rets = [n for n in iter_own(js.node) if isinstance(n, ast.Return) and isinstance(n.value, ast.Dict)]
-        ctx.need(rets, "json_schema() no longer returns a dict literal")
-        lit = rets[-1].value
+        lit = rets[-1].value if rets else None
+        if lit is None:
+            # `schema = {...}; <optional extra keys>; return schema`: the literal the returned local was bound to; the six
+            # keys decided here must not be stored again afterwards
+            named = [n for n in iter_own(js.node) if isinstance(n, ast.Return) and isinstance(n.value, ast.Name)]
+            for r in named:
+                lits = [
+                    a.value
+                    for a in iter_own(js.node)
+                    if isinstance(a, (ast.Assign, ast.AnnAssign)) and isinstance(a.value, ast.Dict) and norm(a.targets[0] if isinstance(a, ast.Assign) else a.target) == r.value.id
+                ]
+                if len(lits) == 1:
+                    lit = lits[0]
+                    restored = [
+                        a
+                        for a in iter_own(js.node)
+                        if isinstance(a, ast.Assign)
+                        and isinstance(a.targets[0], ast.Subscript)
+                        and norm(a.targets[0].value) == r.value.id
+                        and isinstance(a.targets[0].slice, ast.Constant)
+                        and a.targets[0].slice.value in ("$id", "$schema", "description", "type", "properties", "required")
+                    ]
+                    ctx.need(not restored, "a key of the top-level schema is stored again after the literal: {}".format([short(a, 50) for a in restored]))
+        ctx.need(lit is not None, "json_schema() no longer returns a dict literal (or a local bound to one)")
         items = {k.value: v for k, v in zip(lit.keys, lit.values) if isinstance(k, ast.Constant)}
         for key in ("$id", "$schema", "description", "type", "properties", "required"):
             ctx.need(key in items, "top-level schema literal lost key {}".format(key))
